@@ -432,6 +432,14 @@ def o_retained(spec, tr):
         out.append("collector still holds entries for finished/cancelled traces %s (open traces: %s)" % (sorted(got - open_roots), sorted(open_roots)))
     if open_roots - got and spec.reporter:
         out.append("collector holds no entry for open traces %s" % sorted(open_roots - got))
+    # what is parked for a trace was attached to a span of that trace through its handle — nothing is inherited from
+    # earlier traces (checked at every `stats` line)
+    for p2, (act2, _) in sorted(tr.stats.items()):
+        for a in act2:
+            n = sum(1 for k, ps in getattr(spec, "handle_attached", {}).items() if k and k != "U" and int(k[1:]) == a[0] for q in ps if q <= p2)
+            if a[2] > n:
+                out.append("line %d: collector keeps %d parked events/properties for trace %d; %d were attached through span handles of that trace" % (p2, a[2], a[0], n))
+                break
     for a in active:
         if a[0] in open_roots and a[1] != 0 and not spec.cancelable:
             out.append("collector keeps %d buffered span sets for trace %d in the default configuration" % (a[1], a[0]))
